@@ -17,6 +17,7 @@
  *                                                    fields, cut or extended (seeded garbage) to <total> bytes
  *   Connect <p> rand <total> <seed>                  raw peer p: <total> bytes of seeded garbage
  *   Write <p> <n>                                    write the next n bytes of the string (n <= what is left)
+ *   WriteClose <p> <n>                               the same, and the peer leaves before the server runs again
  *   HalfClose <p>                                    shutdown(SHUT_WR)
  *   Resp <p>                                         read the response record without blocking
  *   Attach <p>                                       open the channels named in the response (library code)
@@ -396,6 +397,15 @@ static void run_history(char **lines, int nlines)
 			if (w < 0) w = -errno;
 			if (w > 0) P->sent += w;
 			vt_ev("Write"); vt_i(p); vt_i(n); vt_res(); vt_i(w); vt_end();
+		} else if (!strcmp(op, "WriteClose") && P) {    /* write, then leave at once: the server sees data and hang-up together */
+			int n = (int)vt_argi(&L, 2);
+			if (n > P->total - P->sent) n = P->total - P->sent;
+			long w = (P->sock >= 0) ? send(P->sock, P->bytes + P->sent, n, MSG_NOSIGNAL) : -1;
+			if (w < 0) w = -errno;
+			if (w > 0) P->sent += w;
+			vt_ev("Write"); vt_i(p); vt_i(n); vt_res(); vt_i(w); vt_end();
+			peer_close(P, 0);
+			vt_ev("Close"); vt_i(p); vt_i(0); vt_res(); vt_end();
 		} else if (!strcmp(op, "HalfClose") && P) {
 			if (P->sock >= 0) shutdown(P->sock, SHUT_WR);
 			vt_ev("HalfClose"); vt_i(p); vt_res(); vt_end();
